@@ -260,6 +260,10 @@ def run_check(modname, tier, seed):
             fresh.append(v)
     for f, v in known_hits.values():
         print("KNOWN-FINDING: property=%s %s" % (prop, f["what"]))
+    if os.environ.get("VERIF_LIST_VIOLATIONS"):
+        # side listing for triage (never read back by any check)
+        with open(os.environ["VERIF_LIST_VIOLATIONS"], "w") as fh:
+            json.dump([{"signature": _jsonable(v["signature"]), "reason": v["reason"]} for v in fresh], fh, indent=1)
 
     exit_code = 0
     nonrepro = 0
